@@ -2,7 +2,7 @@
 //! `render()` (or the Batch / Camera front doors), print buffers and statistics.
 //!
 //! case (key=value tokens, any order before the data sections):
-//!   scene door=<r|b|c> tgt=<fb|cb> dims=<W>x<H> vp=<l>,<t>,<r>,<b> cull=<n|f|b> sort=<n|f|b>
+//!   scene door=<r|b|B|c> tgt=<fb|cb> dims=<W>x<H> vp=<l>,<t>,<r>,<b> cull=<n|f|b> sort=<n|f|b>
 //!         test=<n|l|g|e> cw=<0|1> dw=<0|1> sh=<0|1> k=<1|2> sel=<0|1>
 //!         proj=<none | persp,<focal>,<near>,<far> | ortho,<l>,<b>,<n>,<r>,<t>,<f>> zinit=<f32 bits>
 //!         v <nv> <nv*(4+k) words>  t <nt> <nt*3 idx>  h <ncalls> { <sort> <m> <m idx> }*
@@ -241,6 +241,22 @@ pub fn run_scene(s: &Scene, door: char) -> Output {
                                 .target($t)
                                 .context(&ctx)
                                 .render(),
+                            // a REUSED batch: every setter called twice, stale data first — a setter replaces
+                            'B' => {
+                                let stale_tris: Vec<Tri<usize>> = tris.iter().rev().chain(tris.iter()).cloned().collect();
+                                let stale_verts: Vec<$VT> = verts.iter().rev().cloned().collect();
+                                Batch::new()
+                                    .faces(&stale_tris)
+                                    .vertices(&stale_verts)
+                                    .faces(&tris)
+                                    .vertices(&verts)
+                                    .uniform(())
+                                    .shader(shader)
+                                    .viewport(to_screen)
+                                    .target($t)
+                                    .context(&ctx)
+                                    .render()
+                            }
                             'c' => {
                                 // identity camera: vertices are already in clip space
                                 let cam = Camera::new((s.w, s.h))
